@@ -263,6 +263,21 @@ def none_then_array_unsafe(repo):
     return [s for attr in ("psi_gradient", "psi_laplacian") for s in mo.attrs[attr].sets if s.startswith("!")]
 
 
+def _can_be_none(e) -> bool:
+    """the value of the expression itself can be None (a None buried in the arguments of a call is not the value)"""
+    if isinstance(e, ast.Constant):
+        return e.value is None
+    if isinstance(e, ast.IfExp):
+        return _can_be_none(e.body) or _can_be_none(e.orelse)
+    if isinstance(e, ast.BoolOp):
+        return any(_can_be_none(v) for v in e.values)
+    if isinstance(e, ast.NamedExpr):
+        return _can_be_none(e.value)
+    if isinstance(e, (ast.Name, ast.Attribute)):
+        return False            # parameters and attributes: judged at their definitions (reaching values are expanded by the caller)
+    return False
+
+
 def link_callers(ctx, rule="R10.7"):
     from ..dataflow import expand
     repo = ctx.repo
@@ -284,8 +299,8 @@ def link_callers(ctx, rule="R10.7"):
                     from ..dataflow import reaching_values, stmt_of
                     vals = reaching_values(fi.node, ex.id, stmt_of(n, parent_map(fi.node)))
                     cands = [expand(fi.node, v) if v is not None else None for v in vals] or [ex]
-                    ex = next((c for c in cands if c is not None and any(isinstance(x, ast.Constant) and x.value is None for x in ast.walk(c))), ex)
-                may_none = any(c is None or any(isinstance(x, ast.Constant) and x.value is None for x in ast.walk(c)) for c in cands)
+                    ex = next((c for c in cands if c is not None and _can_be_none(c)), ex)
+                may_none = any(c is None or _can_be_none(c) for c in cands)
                 ctx.ob(rule, f"{fi.qual} L{n.lineno}: {norm(n)} passes a vector potential, never None", not (may_none and unsafe),
                        detail={"argument": ast.unparse(ex) if ex is not None else None, "none_then_array": unsafe[:2]},
                        where=fi.fq, construct=f"set_link_exponents argument may be None in {fi.qual}", loc=loc(fi, n),
